@@ -12,3 +12,18 @@ fn every_tracked_aborted_id_is_reloaded() {
         assert!(got.contains(&t), "aborted id {} is in the bitmap but not returned by get_aborted_transactions (reload at open would lose it)", t);
     }
 }
+
+#[test]
+fn ids_marked_together_are_all_reloaded() {
+    // the same ids the Kani harness marks: first / last bit of a byte, neighbours in one byte, first / last byte
+    let ids = [0u64, 7, 8, 1023, 4095, 8191];
+    let mut h: PageZeroHeader = unsafe { std::mem::zeroed() };
+    for t in ids {
+        h.mark_transaction_aborted(t);
+    }
+    assert_eq!(h.get_aborted_transactions(), ids.to_vec(), "ids marked one after the other, reloaded in ascending order");
+    for t in ids {
+        assert!(h.is_transaction_aborted(t), "id {t} forgotten after a later id of the same byte was marked");
+    }
+    assert!(!h.is_transaction_aborted(1) && !h.is_transaction_aborted(9), "ids never marked");
+}
